@@ -101,17 +101,43 @@ class Engine:
         self.obligations: list[Obligation] = []
         self.func: FuncInfo = repo.func(contract.qualname)
         self.check_undecorated(self.func)
+        self.rebound: list[str] = []
+        self._reanchor_locals()
         self.field_types: dict[tuple, Ty] = {}
         self.initial: State | None = None
         self.paths = 0
         self.returns_reached = 0
         self.loop_nodes = {id(n): k for k, n in enumerate(self.func.loops())}
-        self.rebound: list[str] = []
         self.local_names = {n.id for n in ast.walk(self.func.node) if isinstance(n, ast.Name) and isinstance(n.ctx, ast.Store)}
         self._check_loops()
         self.input_terms: dict[str, Term] = {}
         for p, ty in contract.fields.items():
             self.field_types[tuple(p.split("."))] = ty
+
+    def _reanchor_locals(self):
+        """The contract names local variables (invariants, locals table, loop headers).  If the function differs from
+        the snapshot taken when the contract was written only by a one-to-one renaming of locally bound names, the
+        current code is alpha-renamed to the snapshot's names before the conditions are generated."""
+        import copy
+        import os
+        from . import shape
+        path = os.path.join(os.path.dirname(os.path.dirname(os.path.abspath(__file__))), "contracts", "snapshots",
+                            self.c.qualname.split("#")[0] + ".py")
+        if not os.path.exists(path):
+            return
+        try:
+            with open(path) as f:
+                snap = ast.parse(f.read()).body[0]
+        except (SyntaxError, IndexError):
+            return
+        res = shape.alpha_rename(snap, self.func.node)
+        if res is None:
+            return
+        node, ren = res
+        fi = copy.copy(self.func)
+        fi.node = node
+        self.func = fi
+        self.rebound.append("local names re-anchored to the contract's: " + ", ".join(f"{a} -> {b}" for a, b in sorted(ren.items())))
 
     # ------------------------------------------------------------------ utilities
     ALLOWED_DECORATORS = {"staticmethod", "classmethod"}
